@@ -9,15 +9,21 @@ From Refinery Require Gen.GenC10.
    "<= 1 keeps all", "<=" comparison, 4 hash bytes, rate returned unchanged). *)
 Theorem C10_source_shape :
   GenC10.det_max = 4294967295 /\ GenC10.det_conv_bits = 32 /\ GenC10.det_always_le = 1 /\
+  GenC10.det_start_guarded = true /\
   GenC10.det_cmp_le = true /\ GenC10.det_hash_bytes = 4 /\
   GenC10.det_rate_from_config = true /\ GenC10.det_returns_rate = true /\
-  GenC10.det_hash_of_traceid_and_salt = true.
+  GenC10.det_hash_of_traceid_and_salt = true /\ GenC10.det_get_shape = true /\
+  GenC10.det_max = DET_MAX /\ GenC10.det_conv_bits = DET_BITS /\ GenC10.det_always_le = DET_ALWAYS /\
+  GenC10.det_cmp_le = DET_LE /\ GenC10.det_hash_bytes = DET_HASH_BYTES /\ GenC10.det_salt = DET_SALT.
 Proof. exact gen_det_ok. Qed.
 Print Assumptions C10_source_shape.
 
 Theorem C10_source_shape_stress :
   GenC10.stress_max = 18446744073709551615 /\ GenC10.stress_zero_becomes = 1 /\
-  GenC10.stress_always_le = 1 /\ GenC10.stress_cmp_le = true.
+  GenC10.stress_always_le = 1 /\ GenC10.stress_cmp_le = true /\
+  GenC10.stress_rate_shape = true /\ GenC10.stress_bound_shape = true /\ GenC10.stress_get_shape = true /\
+  GenC10.stress_max = STRESS_MAX /\ GenC10.stress_zero_becomes = STRESS_ZERO /\
+  GenC10.stress_always_le = STRESS_ALWAYS /\ GenC10.stress_cmp_le = STRESS_LE /\ GenC10.stress_seed = STRESS_SEED.
 Proof. exact gen_stress_ok. Qed.
 Print Assumptions C10_source_shape_stress.
 
@@ -27,7 +33,7 @@ Print Assumptions C10_source_shape_stress.
    a function of (rate, h) only. *)
 Theorem C10_det_threshold : forall rate h,
   1 <= rate < 4294967296 ->
-  det_sample rate h = Some (if rate <=? 1 then 1 else rate, spec_keep GenC10.det_max rate h).
+  det_sample rate h = Some (if rate <=? 1 then 1 else rate, spec_keep DET_MAX rate h).
 Proof. exact det_sample_in_range. Qed.
 Print Assumptions C10_det_threshold.
 
@@ -58,21 +64,28 @@ Print Assumptions C10_det_nested.
 Theorem C10_det_fraction : forall rate,
   1 <= rate < 4294967296 ->
   let kept := countN (det_keep rate) (Z.to_N det_hash_range) in
-  kept = GenC10.det_max / rate + 1 /\
+  kept = DET_MAX / rate + 1 /\
   det_hash_range <= rate * kept <= det_hash_range + rate - 1.
 Proof. exact det_fraction. Qed.
 Print Assumptions C10_det_fraction.
 
-(* Outside the property's range: Start converts the rate to uint32 before dividing, so every
-   multiple of 2^32 (0 included) divides by zero.  Reported to C28 (owner of the crash property). *)
-Theorem C10_det_division_by_zero_outside_range : forall k, det_start (k * 4294967296) = None.
-Proof. exact det_crash_multiple. Qed.
-Print Assumptions C10_det_division_by_zero_outside_range.
+(* Start never panics, for any Go int (the guard added for C28 is part of the model) … *)
+Theorem C10_det_start_never_panics : forall rate,
+  -9223372036854775808 <= rate < 9223372036854775808 -> det_start rate <> None.
+Proof. exact det_start_total. Qed.
+Print Assumptions C10_det_start_never_panics.
+
+(* … and rates that do not fit in 32 bits (outside C10's range) keep only the hash value 0 *)
+Theorem C10_det_rates_above_32_bits : forall rate h,
+  4294967296 <= rate < 9223372036854775808 ->
+  det_sample rate h = Some (rate, h <=? 0).
+Proof. exact det_big_rate. Qed.
+Print Assumptions C10_det_rates_above_32_bits.
 
 (* Stress relief, every configured rate 0 <= cfg < 2^64 (0 is read as 1) and every hash *)
 Theorem C10_stress_threshold : forall cfg h,
   0 <= cfg < 18446744073709551616 ->
-  stress_sample cfg h = (if cfg <=? 1 then 1 else cfg, spec_keep GenC10.stress_max cfg h).
+  stress_sample cfg h = (if cfg <=? 1 then 1 else cfg, spec_keep STRESS_MAX cfg h).
 Proof. exact stress_sample_spec. Qed.
 Print Assumptions C10_stress_threshold.
 
@@ -90,7 +103,7 @@ Print Assumptions C10_stress_nested.
 Theorem C10_stress_fraction : forall cfg,
   1 <= cfg < 18446744073709551616 ->
   let kept := countN (stress_keep cfg) (Z.to_N stress_hash_range) in
-  kept = GenC10.stress_max / cfg + 1 /\
+  kept = STRESS_MAX / cfg + 1 /\
   stress_hash_range <= cfg * kept <= stress_hash_range + cfg - 1.
 Proof. exact stress_fraction. Qed.
 Print Assumptions C10_stress_fraction.
@@ -101,7 +114,8 @@ Example C10_nonvacuous :
   det_sample 3 1431655765 = Some (3, true) /\ det_sample 3 1431655766 = Some (3, false) /\
   det_sample 2 1431655766 = Some (2, true) /\ det_sample 1 4294967295 = Some (1, true) /\
   det_sample 2147483648 1 = Some (2147483648, true) /\ det_sample 2147483648 2 = Some (2147483648, false) /\
-  det_sample 4294967296 0 = None /\
+  det_sample 4294967296 0 = Some (4294967296, true) /\ det_sample 4294967296 1 = Some (4294967296, false) /\
+  det_sample 0 77 = Some (1, true) /\ det_sample (-4294967296) 77 = Some (1, true) /\
   stress_sample 0 18446744073709551615 = (1, true) /\
   stress_sample 3 6148914691236517205 = (3, true) /\ stress_sample 3 6148914691236517206 = (3, false) /\
   stress_sample 18446744073709551615 1 = (18446744073709551615, true) /\
